@@ -1011,6 +1011,24 @@ func (w *World) advForeign(b int, h, v uint64, foreign bool) bool {
 	if !foreign && hh == h {
 		hh = h + 1
 	}
+	// prefer the frontier height when some correct node lags behind it: for the laggard this is a future height
+	// (cache path) for which real proposals already exist
+	var top uint64
+	var laggards []int
+	for _, n := range w.honest() {
+		if n.alive && n.height() > top {
+			top = n.height()
+		}
+	}
+	for _, n := range w.honest() {
+		if n.alive && n.height() > 0 && n.height() < top {
+			laggards = append(laggards, n.idx)
+		}
+	}
+	toLaggards := len(laggards) > 0 && w.ch.Pick("fi-laggards", 2) == 1
+	if toLaggards {
+		hh = top
+	}
 	var hash []byte
 	if props := w.seenProposals(hh, -1); len(props) > 0 {
 		hash = props[w.ch.Pick("fi-prop", len(props))].Ref.Hash
@@ -1018,6 +1036,10 @@ func (w *World) advForeign(b int, h, v uint64, foreign bool) bool {
 		hash = w.freshBlock(hh, b, false).Hash()
 	}
 	vv := uint64(w.ch.Pick("fi-v", 2))
+	if props := w.seenProposals(hh, -1); len(props) > 0 && w.ch.Pick("fi-match-view", 3) > 0 {
+		p := props[w.ch.Pick("fi-prop2", len(props))]
+		hash, vv = p.Ref.Hash, p.Ref.V
+	}
 	var raw *interfaces.ConsensusRawMessage
 	switch w.ch.Pick("fi-kind", 4) {
 	case 0:
@@ -1033,6 +1055,9 @@ func (w *World) advForeign(b int, h, v uint64, foreign bool) bool {
 		raw = SignedRefMsg(sg, KC, protocol.LEAN_HELIX_COMMIT, inst, hh, vv, hash, sg.Seed(hh, w.seedContent(hh)), nil)
 	default:
 		raw = VoteMsg(SignedVote(sg, inst, hh, vv+1, Proof{}), nil)
+	}
+	if toLaggards {
+		return w.inject(b, raw, tag, laggards) > 0
 	}
 	return w.inject(b, raw, tag, nil) > 0
 }
